@@ -2,7 +2,7 @@
    Model: Model/LsmCompaction.v (Compactor.Compact transcribed) over the entry-level layouts of Model/LsmBase.v. *)
 From Coq Require Import List NArith.
 From RV Require Import Base.Bytes Model.LsmBase Model.LsmCompaction Model.Lsm
-  Proofs.C18_Layout Proofs.C18_Main Proofs.C07_Refine Proofs.C07_Corollaries Proofs.C18_Fixpoint.
+  Model.LsmReplay Proofs.C18_Layout Proofs.C18_Main Proofs.C07_Refine Proofs.C07_Corollaries Proofs.C18_Fixpoint Proofs.C07_Replay.
 Import ListNotations.
 Open Scope N_scope.
 
@@ -22,6 +22,19 @@ Theorem compact_preserves :
   view ll2 = view ll1 /\ (forall e, ents ll2 e -> ents ll1 e).
 Proof. exact compact_preserves_proof. Qed.
 Print Assumptions compact_preserves.
+
+(* Independent of the compaction policy: applying ANY change set that passes the executable legality test [good_csb] to a
+   valid layout gives a valid layout with the same Get / ScanPrefix results and the same merged view, and invents no entry.
+   The correspondence check applies this to the change sets the implementation actually returns (code 6 = not legal), so it
+   does not depend on table byte sizes, the picking policy or WriteRun's chunk sizes; [compact_preserves] shows that the
+   transcribed Compactor.Compact only produces such change sets. *)
+Theorem legal_change_set_preserves :
+  forall ll cs, valid ll -> good_csb ll cs = true ->
+  valid (apply_cs cs ll) /\ (forall k, ll_get k (apply_cs cs ll) = ll_get k ll) /\
+  (forall p, ll_scan p (apply_cs cs ll) = ll_scan p ll) /\ view (apply_cs cs ll) = view ll /\
+  (forall e, ents (apply_cs cs ll) e -> ents ll e).
+Proof. exact legal_cs_preserves_proof. Qed.
+Print Assumptions legal_change_set_preserves.
 
 (* The same for one step of the compaction task as a whole, whether Compact returns nil, a change set, or FAILS with a
    storage read error (then nothing is installed): validity and every read are preserved.  This is the statement the
